@@ -71,6 +71,14 @@ func newMsg(topic string, payload []byte, qos byte) *Message {
 }
 
 func (s *Session) store() {
+	// a closed session has been discarded or replaced (e.g. by a newer
+	// connection with the same client id): its snapshot must not overwrite
+	// the stored session of its successor.
+	select {
+	case <-s.done:
+		return
+	default:
+	}
 	logger.SpanDebugf(nil, "session %v store", s.info.ClientID)
 	str, err := s.encode()
 	if err != nil {
